@@ -15,6 +15,7 @@ import (
 	"testing/synctest"
 	"time"
 
+	"github.com/cometbft/cometbft/types"
 	bsmsg "github.com/ipfs/boxo/bitswap/message"
 	bspb "github.com/ipfs/boxo/bitswap/message/pb"
 	"github.com/ipfs/boxo/blockstore"
@@ -25,7 +26,6 @@ import (
 	ds_sync "github.com/ipfs/go-datastore/sync"
 	"github.com/libp2p/go-libp2p/core/peer"
 	"github.com/libp2p/go-libp2p/p2p/net/conngater"
-	"github.com/cometbft/cometbft/types"
 	"go.uber.org/fx"
 	"google.golang.org/protobuf/proto"
 
@@ -416,14 +416,14 @@ type v6Case struct {
 	Wiring string   `json:"wiring"` // shrex | bs-light | bs-bridge | light | bridge
 	Sq     int      `json:"sq"`
 	Req    v6Req    `json:"req"`
-	Seq    []string `json:"seq,omitempty"`     // shrex: answers to successive attempts of the (first) request
-	Seq2   []string `json:"seq2,omitempty"`    // shrex: ... of the second request (two samples)
-	Bs     []string `json:"bs,omitempty"`      // bitswap: peers in order of arrival
-	BsErr  bool     `json:"bs_err,omitempty"`  // bitswap: GetBlocks itself fails
-	D      string   `json:"deadline"`          // d<duration> deadline | c<duration> cancel | none
-	BL     bool     `json:"blacklisting"`      // peer manager blacklisting enabled
-	Extra  int      `json:"extra_peers"`       // shrex peers in the pool beyond the scripted answers
-	Local  string   `json:"local,omitempty"`   // bridge wiring: store getter in front misses | hits
+	Seq    []string `json:"seq,omitempty"`    // shrex: answers to successive attempts of the (first) request
+	Seq2   []string `json:"seq2,omitempty"`   // shrex: ... of the second request (two samples)
+	Bs     []string `json:"bs,omitempty"`     // bitswap: peers in order of arrival
+	BsErr  bool     `json:"bs_err,omitempty"` // bitswap: GetBlocks itself fails
+	D      string   `json:"deadline"`         // d<duration> deadline | c<duration> cancel | none
+	BL     bool     `json:"blacklisting"`     // peer manager blacklisting enabled
+	Extra  int      `json:"extra_peers"`      // shrex peers in the pool beyond the scripted answers
+	Local  string   `json:"local,omitempty"`  // bridge wiring: store getter in front misses | hits
 }
 
 func (c v6Case) String() string {
@@ -452,10 +452,10 @@ func (c v6Case) String() string {
 
 // v6Env is what one worker owns.
 type v6Env struct {
-	id       int
-	squares  []*v6Square
-	base     uint64 // this worker's heights: base+square index (bitswap keys its global state by CID, i.e. by height)
-	shared   *v6Shared
+	id      int
+	squares []*v6Square
+	base    uint64 // this worker's heights: base+square index (bitswap keys its global state by CID, i.e. by height)
+	shared  *v6Shared
 }
 
 // v6Shared is read-only after setup.
